@@ -225,6 +225,26 @@ for _p, _t in {
  "C20": "Added in later rounds: const static locals with run-time initialisers; arrays of scalars initialised in constructors; the layout constructor resets the caller's convergence test.",
 }.items():
     CHECKS[_p]["text"] = CHECKS[_p]["text"].rstrip() + " " + _t
+# clauses added in rounds e / f
+for _p, _t in {
+ "C01": "Rounds e/f: the constraint heaps hand out stale and block-internal constraints first (comparator table, both copies); copyResult publishes position() for every variable; solver constructors and addConstraint clear a stale unsatisfiable flag.",
+ "C03": "Rounds e/f: clearFixedRoute queues both end points again.",
+ "C04": "Rounds e/f: angleBetween is one atan2 of cross and dot product (exact for collinear points); the sweep's candidate condition is equivalent to the reviewed one; an orthogonal step's cost ignores the angle penalty.",
+ "C05": "Rounds e/f: a scan segment is completed only past its end or at its end under a covering vertical segment; end-point directions widened on the outside of the scan are restored after the graph is built.",
+ "C06": "Rounds e/f: the selective-reroute test compares its lower bound with a bound on the COST of the current route.",
+ "C08": "Rounds e/f: calculateClusterPathsToEachNode and the non-overlap grouping interpreted on multi-parent hierarchies (two / three sibling clusters sharing a node, node child of a cluster and of its parent).",
+ "C09": "Rounds e/f: every solve is followed by a copy-back loop that moves every rectangle; overlapX / overlapY are the missing separation (interpreted on a grid); borders are restored on exceptional exits too.",
+ "C10": "Rounds e/f: connector-pair ids are only paired for two different connectors.",
+ "C11": "Rounds e/f: Polygon::checkpointsOnSegment meets its documented window for every segment / modifier; both moveAttachedConns mark their updates as pin-move updates.",
+ "C12": "Rounds e/f: a terminal whose pin class has pins on two sides is a modelled scenario (known finding).",
+ "C13": "Rounds e/f: pruning on closed paths keeps them closed; a segment is skipped as hidden only when it is not attached to the hiding neighbour.",
+ "C15": "Rounds e/f: queued pin actions never read their (possibly destroyed) pin; vertices are unlisted before they are deleted; pin-set keys change only outside the set; stale solver pointers are never looked through; constructors set members before calling code that reads them; nullable ConnEnd pointers are tested before use; queued end updates are detached from an obstacle before it is freed; the four Router::delete* entry points free or queue their object; size-constructed Point vectors are completely filled.",
+ "C17": "Rounds e/f: only computePathLengths produces entries of D / G and every constructor reaches it; K2 components and edgeless graphs.",
+ "C18": "Rounds e/f: a later addSep overwrites exactly its component(s) (9216 call pairs); the TGLF reader does not reorder route points.",
+ "C19": "Rounds e/f: the planariser's copy loops cover all nodes / edges; computeCrossings interpreted on segment sets with sub-tolerance segments finds exactly the geometric crossings; the placement step of symmetricLayout keeps sibling trees apart for asymmetric trees.",
+ "C20": "Rounds e/f: process-wide borders are restored on exceptional exits (call-graph closure of throw); size-constructed Point vectors are completely filled.",
+}.items():
+    CHECKS[_p]["text"] = CHECKS[_p]["text"].rstrip() + " " + _t
 for _p, _r in {
 }.items():
     na(_p, _r)
